@@ -27,7 +27,11 @@ def main():
         if a.replay:
             mod.replay(res, a.replay)
         else:
-            mod.run(res)
+            try:
+                mod.run(res)
+            except common.DriverVerdict as dv:
+                path = res.write_replay("driver-died", dict(what=dv.what, detail=dv.detail[-6000:]))
+                res.violation(dv.what, path)
         code = res.finish(getattr(mod, "LEVEL", "model_checking"))
     except Exception:
         traceback.print_exc()
